@@ -228,6 +228,30 @@ func c05Work(c *engine.Ctx) {
 			}
 		}
 	}
+	// statement adjacency: the printer ends statements with ';' or a line break; whatever statement comes first, a
+	// following statement that starts with a continuation token must stay a statement of its own, in every kind of
+	// statement list
+	firsts := []string{"var x = 1", "let x = 1", "const x = 1", "var x", "let x, y = 2", "x = 1", "x", "x++", "a.b", "f()", "class A {}", "function g() {}", "do ; while (0)", "x = function () {}",
+		"x = class {}", "x = () => {}", "x = a => a", "y = {}", "y = []", "y = `t`", "y = /r/", "throw e", "return", "return 1", "break", "continue", "if (a) b", "if (a) b; else c", "for (;;) b",
+		"while (a) b", "l: b", "{}", "try {} catch {}", "switch (a) {}", "import('m')", "new A", "new A()", "x = 1, y = 2", "yield", "yield 1", "await a", "debugger", "'use strict'"}
+	seconds := []string{"(y)", "[y]", "`t`", "+y", "-y", "/r/.test(y)", "++y", "--y", "y", "(y) => z", "[y] = z", "{}", "function h() {}", "class B {}", "let z", "await y", "yield", "in_ = 1", "instanceof_ = 1"}
+	lists := [][2]string{{"", ""}, {"{", "}"}, {"function g0() {", "}"}, {"async function* g1() {", "}"}, {"switch (a) { case 1:", "}"}, {"switch (a) { default:", "case 2: }"}, {"class C { static {", "} }"},
+		{"x = () => {", "};"}, {"for (;;) {", "}"}, {"if (a) {", "} else {}"}, {"l: {", "}"}, {"x = {m() {", "}};"}, {"try {", "} catch {}"}}
+	for _, f := range firsts {
+		for _, sec := range seconds {
+			for _, l := range lists {
+				k++
+				if !c.Mine(k) {
+					continue
+				}
+				for _, sep := range []string{";", "\n", ";\n"} {
+					all([]byte(l[0] + f + sep + sec + ";" + l[1]))
+				}
+				c.Count("adjacency-family", 1)
+				c.Count("distinct_nontrivial", 1)
+			}
+		}
+	}
 	c.Sample("if (a) {if (a) {x = {a: `a\\nb`};}}  — template with a line break printed at indentation 8")
 	_ = bytes.Equal
 }
